@@ -474,6 +474,39 @@ func generate(e *vh.Env) []scenario {
 	for n := 0; n < nWalk && want("walk"); n++ {
 		out = append(out, scenario{class: "walk", maxc: -1, strategy: walk(rand.New(rand.NewSource(r.Int63())), walkCfg{direct: 1, steps: 4 + r.Intn(8)}), closeErr: r.Intn(3) == 0, slowExit: r.Intn(2) == 0})
 	}
+	// 10. (placed last, nothing random: the streams of the classes above do not shift)  Both timeouts configured as 0
+	//     - every deadline the session arms has passed when it is armed -, a connected peer that does not read, and
+	//     Start, Sends, Close issued back to back: the session must be over (exit callback once, connection closed, both
+	//     goroutines gone, count back) and nothing may have reached the peer.
+	if want("zero-timeouts") {
+		for n := 1; n <= 2; n++ {
+			f := lRF(0, rkTimeout)
+			f.natural = true
+			var ss []label
+			for j := 0; j < n; j++ {
+				ss = append(ss, lSend(0, []byte{byte(11 + j), byte(21 + j)}))
+			}
+			out = append(out, scenario{class: "zero-timeouts", maxc: -1, readTO: zeroTO, writeTO: zeroTO, sendAmp: 2 << 10,
+				strategy: staticStrategy([][]label{cat([]label{lStartL(0, trPipe, false), f}, ss, []label{lb(aLocalClose, 0)}),
+					{lSend(0, []byte{9})}, {lb(aLocalClose, 0), lb(aStartAgain, 0)}})})
+		}
+	}
+	// 11. the write deadline of the manager fires in the MIDDLE of one payload: the peer has taken a few bytes of the
+	//     first write (fewer than one payload symbol: every symbol is 4 KiB handed to Session.Send) and stays away; when
+	//     the session's Write has returned the peer reads on to the end of the stream.  The session must be over and
+	//     what the peer got must be the accepted stream in order - here: no complete symbol at all.
+	if want("partial-write") {
+		for n, part := range []int{10, 1, 4095} {
+			f := lWF(0, wkTimeout)
+			f.natural = true
+			ss := []label{lSend(0, []byte{byte(31 + n)}), lSend(0, []byte{byte(41 + n), byte(51 + n)})}
+			if n == 1 {
+				ss = []label{lSend(0, []byte{61, 62, 63}), lSend(0, []byte{64})}
+			}
+			out = append(out, scenario{class: "partial-write/pipe", maxc: -1, writeTO: 250 * time.Millisecond, sendAmp: 4 << 10, partial: part,
+				strategy: staticStrategy([][]label{{lStartL(0, trPipe, false)}, cat(ss, []label{lb(aLocalClose, 0), f}), {lSend(0, []byte{9})}})})
+		}
+	}
 	return out
 }
 
